@@ -24,6 +24,15 @@ def lit_bytes(e):
     return None
 
 
+
+def is_field_reader_call(n):
+    """the call of the generic field reader: a first-party function of the tabular reader that is given the separator byte, the
+    quote/escape byte and a closure (found by its arguments, not by its name)"""
+    if n.get("k") != "Call" or not str((strip(n["f"]).get("path") or {}).get("def", "")).startswith("jaq_fmts::read::tabular::"):
+        return False
+    args = n.get("args", [])
+    return len(args) >= 4 and lit_bytes(args[1]) is not None and lit_bytes(args[2]) is not None and strip(args[3]).get("k") == "Closure"
+
 def is_err_expr(e):
     """`Err(..)` or `Err(..)?`"""
     e = strip(e)
@@ -73,7 +82,7 @@ def run(facts, tier):
                             rmap[ch[0]] = lit_bytes(pushes[0]["args"][0])
             esc = None
             for f in rf:
-                for call in find(f["body"], lambda n: n.get("k") == "Call" and (strip(n["f"]).get("path") or {}).get("def") == "jaq_fmts::read::tabular::field"):
+                for call in find(f["body"], is_field_reader_call):
                     sep, esc = lit_bytes(call["args"][1]), lit_bytes(call["args"][2])
                     t1.examined("separators", True, {"reader_separator": repr(sep), "reader_escape_char": repr(esc)})
                     if sep != b"\t":
@@ -143,7 +152,7 @@ def run(facts, tier):
             if not ok:
                 t2.violate("conditional-quoting", "CSV writer does not quote text fields on every path (" + (why or f"{len(qwrites)} quote writes, {len(content)} content writes") + "): an unquoted field spelled like a number, a boolean or the empty string reads back as another value", where=wm["sp"])
         for f in rf:
-            for call in find(f["body"], lambda n: n.get("k") == "Call" and (strip(n["f"]).get("path") or {}).get("def") == "jaq_fmts::read::tabular::field"):
+            for call in find(f["body"], is_field_reader_call):
                 sep, q = lit_bytes(call["args"][1]), lit_bytes(call["args"][2])
                 t2.examined("separators", True, {"reader_separator": repr(sep), "reader_quote": repr(q)})
                 if sep != b"," or q != b'"':
